@@ -140,7 +140,7 @@ def structural(tier, res):
     src = ast.unparse(fi.node)
     ok = "unknown_txns = [t for t in all_txns if t.get('category') == 'Unknown']" in src
     out.append(frames.Clause(fi.qualname + '#lists_exactly_the_Unknown_transactions', ok,
-                             "unknown_txns = [t for t in all_txns if t.get('category') == 'Unknown']" if ok else 'the Unknown filter changed'))
+                             "unknown_txns = [t for t in all_txns if t.get('category') == 'Unknown']" if ok else 'the Unknown filter changed', kind='auxiliary'))
     return out
 
 
